@@ -51,7 +51,9 @@ func c14Pair(kind string, base uint64) (c14Duty, c14Duty) {
 // routing modes per instance
 // The "batched" modes send the second duty inside a two-entry batch next to an unrelated, approvable
 // attestation of another account of the instance (before or after it), as a client is free to do.
-var c14Modes = []string{"none", "d1", "d2", "d1-then-d2", "d2-then-d1", "concurrent", "d1-then-d2-batched-first", "d1-then-d2-batched-last", "d2-then-d1-batched-first"}
+var c14Modes = []string{"none", "d1", "d2", "d1-then-d2", "d2-then-d1", "concurrent", "d1-then-d2-batched-first", "d1-then-d2-batched-last", "d2-then-d1-batched-first",
+	// ... or with an older, refusable attestation slipped in between inside a batch (an attempt to rewind the record).
+	"d1-stale-batch-d2", "d2-stale-batch-d1"}
 
 // C14 routes two conflicting duties across the instances of a distributed account in every way and
 // counts the valid partial signatures each duty collects.
@@ -182,6 +184,14 @@ func c14Sign(inst *rig.Instance, account string, d c14Duty) []byte {
 	return sig
 }
 
+// c14Stale builds an attestation older than the duty (it must be refused once the duty has been signed).
+func c14Stale(d c14Duty) c14Duty {
+	if d.att == nil {
+		return d
+	}
+	return c14Att(d.att.Source.Epoch-4, d.att.Source.Epoch-3, 0xdd)
+}
+
 var c14Filler struct {
 	mu    sync.Mutex
 	epoch uint64
@@ -253,6 +263,14 @@ func c14Route(c *rig.Cluster, ids []uint64, account string, modes []int, d1, d2 
 			case "d2-then-d1-batched-first":
 				put(sigs2, id, c14Sign(inst, account, d2))
 				put(sigs1, id, c14SignBatched(inst, account, d1, true))
+			case "d1-stale-batch-d2":
+				put(sigs1, id, c14Sign(inst, account, d1))
+				c14SignBatched(inst, account, c14Stale(d1), id%2 == 0)
+				put(sigs2, id, c14Sign(inst, account, d2))
+			case "d2-stale-batch-d1":
+				put(sigs2, id, c14Sign(inst, account, d2))
+				c14SignBatched(inst, account, c14Stale(d2), id%2 == 1)
+				put(sigs1, id, c14Sign(inst, account, d1))
 			case "concurrent":
 				var w2 sync.WaitGroup
 				w2.Add(2)
